@@ -199,30 +199,6 @@ def tlpSig := tlpSigWith threeParts
 
 /-! ### chains -/
 
-/-- the chain, stage by stage; `none` when a sort stage meets more than 20 rows on which its
-comparator is not a total preorder (the order `sort_by` produces is then unspecified) -/
-def runChain (cap : Nat) : List Stage → List (List Row) → Option (List (List Row))
-  | [], cs => some cs
-  | st :: rest, cs =>
-    match st with
-    | .sort keys =>
-      match sortRows keys cs.flatten with
-      | some sorted => runChain cap rest (rechunkAll cap sorted)
-      | none => none
-    | _ => runChain cap rest (st.pull cap cs)
-
-/-- which kinds of values make the comparator of these rows fail to be a preorder -/
-def sortSig (keys : List SortKey) (rows : List Row) : String :=
-  let ks := keys.map (fun k => (colVals k.col rows).foldl (fun acc v => insertNat (vclass v) acc) [])
-  let has (f : List Nat → Bool) := ks.any f
-  let nan := has (fun c => c.contains 6 && (c.contains 5 || c.contains 3 || c.contains 4))
-  let big := has (fun c => c.contains 4 && c.contains 5)
-  let mixed := has (fun c => ((c.filter (fun x => x == 1 || x == 2)).length +
-    (if c.any (fun x => x ≥ 3) then 1 else 0)) > 1)
-  let names := (if mixed then ["sort-mixed-kinds-unordered"] else []) ++
-    (if nan then ["sort-nan-unordered"] else []) ++ (if big then ["sort-int-float-rounding"] else [])
-  if names.isEmpty then "sort-order" else joinWith "+" names
-
 def belowStages (pred : Option Ex) (skip limit : Option Nat) : List Stage :=
   (match pred with | some e => [Stage.filter e] | none => []) ++
   (match skip, limit with
@@ -261,30 +237,22 @@ def handle (args : List String) : Option Proto.Out :=
     let _ ← n.toNat?
     let keys ← parseKeys k
     let rows := withPositions (← parseTable t)
-    let _ ← parseSizes sz       -- everything is materialized first: the chunking cannot matter
-    match sortRows keys rows with
-    | some sorted => pure (mk (showPosFlat sorted) (showPosFlat (rows.mergeSort (specRowLe keys))) (sortSig keys rows))
-    | none => pure { model := "comparator-not-a-preorder" }
+    let cs := splitChunks (← parseSizes sz) rows
+    pure (mk (showPosFlat (sortOp cap keys cs).flatten) (showPosFlat (rows.mergeSort (specRowLe keys))) "sort-order")
   | ["sort.c", n, k, sz, t] => do
     let _ ← n.toNat?
     let keys ← parseKeys k
     let rows := withPositions (← parseTable t)
     let cs := splitChunks (← parseSizes sz) rows
-    match runChain cap [.sort keys] cs with
-    | some out => pure { model := showPosChunks out }
-    | none => pure { model := "comparator-not-a-preorder" }
-  | ["sort.m", hint, n, k, sz, t] => do
+    pure { model := showPosChunks (sortOp cap keys cs) }
+  | ["sort.m", _hint, n, k, sz, t] => do
+    -- kept for the regression lines of the corpus (the old comparator could make `sort_by` panic
+    -- here): since the repair, an ordinary sort
     let _ ← n.toNat?
     let keys ← parseKeys k
     let rows := withPositions (← parseTable t)
-    let _ ← parseSizes sz
-    -- whatever order comes out, it is a permutation of the input; where the comparator is not a
-    -- total preorder and there are more than 20 rows, `sort_by` may instead panic ("user-provided
-    -- comparison function does not correctly implement a total order"): accepted only there, and
-    -- only when the line says this input was seen to do so
-    let s := showPosFlat rows
-    let m := if hint == "p" && !orderedKeys keys rows && rows.length > 20 then "panic" else s
-    pure (mk m s "sort-panics-comparator-not-a-total-order")
+    let cs := splitChunks (← parseSizes sz) rows
+    pure (mk (showPosFlat (sortOp cap keys cs).flatten) (showPosFlat (rows.mergeSort (specRowLe keys))) "sort-order")
   | ["count", n, c, p, sk, li, sz, t] => do
     let n ← n.toNat?
     let c ← c.toNat?
@@ -314,16 +282,11 @@ def handle (args : List String) : Option Proto.Out :=
     let win (l : List Row) : List Row :=
       let l := match sk with | some s => l.drop s | none => l
       match li with | some n => l.take n | none => l
-    match sortRows keys rows with
-    | some sorted =>
-      pure (mk (showPosFlat (win sorted)) (showPosFlat (win (rows.mergeSort (specRowLe keys)))) (sortSig keys rows))
-    | none => pure { model := "comparator-not-a-preorder" }
-  | ["qord.m", hint, k, t] => do
+    pure (mk (showPosFlat (win (rows.mergeSort (rowLe keys)))) (showPosFlat (win (rows.mergeSort (specRowLe keys)))) "sort-order")
+  | ["qord.m", _hint, k, t] => do
     let keys := (← parseKeys k).map (fun k => { k with nullsFirst := false })
     let rows := withPositions (← parseTable t)
-    let s := showPosFlat rows
-    let m := if hint == "p" && !orderedKeys keys rows && rows.length > 20 then "panic" else s
-    pure (mk m s "sort-panics-comparator-not-a-total-order")
+    pure (mk (showPosFlat (rows.mergeSort (rowLe keys))) (showPosFlat (rows.mergeSort (specRowLe keys))) "sort-order")
   | ["qcnt", n, c, p, t] => do
     let n ← n.toNat?
     let c ← c.toNat?
@@ -339,22 +302,13 @@ def handle (args : List String) : Option Proto.Out :=
     let stages ← parseStages n st
     let rows ← parseTable t
     let cs := splitChunks (← parseSizes sz) rows
-    match runChain cap stages cs with
-    | some out =>
-      let sortSigs := stages.filterMap (fun st => match st with
-        | .sort keys => if orderedKeys keys rows then none else some (sortSig keys rows)
-        | _ => none)
-      pure (mk (showRowsFlat out.flatten) (showRowsFlat (specChainT stages rows))
-        (if sortSigs.isEmpty then "chain-not-the-list-result" else joinWith "+" sortSigs.eraseDups))
-    | none => pure { model := "comparator-not-a-preorder" }
+    pure (mk (showRowsFlat (pullChain cap stages cs).flatten) (showRowsFlat (specChainT stages rows)) "chain-not-the-list-result")
   | ["pipe.c", n, st, sz, t] => do
     let n ← n.toNat?
     let stages ← parseStages n st
     let rows ← parseTable t
     let cs := splitChunks (← parseSizes sz) rows
-    match runChain cap stages cs with
-    | some out => pure { model := showRowsChunks out }
-    | none => pure { model := "comparator-not-a-preorder" }
+    pure { model := showRowsChunks (pullChain cap stages cs) }
   | _ => none
 
 end Grafeo.DriverOps2
